@@ -59,10 +59,11 @@ def run_check(pid, tier, seed, replay=None):
         cases = [Case(c["case"], "replay", True, c.get("spec")) for c in rp.get("cases", [])]
         if not cases:
             print("replay file names no concrete case (%s)" % rp.get("note", "")); 
-        allc = [core.PRIMARY] + core.MATRIX_PURE + core.MATRIX_ZEROING
+        allc = [core.PRIMARY, core.CONFIG_BZERO] + core.MATRIX_PURE + core.MATRIX_ZEROING
         configs = [c for c in allc if c["label"] == rp.get("config")][:1] or configs
     else:
         cases.extend(prop.gen(rng, tier))
+        configs = configs + list(getattr(prop, "MATRIX_QUICK", []))
         if tier == "thorough":
             # more seeds of the same generators, then the build matrix
             seen = set(c.line for c in cases)
@@ -71,7 +72,7 @@ def run_check(pid, tier, seed, replay=None):
                 for c in prop.gen(r2, tier):
                     if c.line not in seen:
                         seen.add(c.line); cases.append(c)
-            configs = configs + list(getattr(prop, "MATRIX", core.MATRIX_PURE))
+            configs = configs + [c for c in getattr(prop, "MATRIX", core.MATRIX_PURE) if c["label"] not in [x["label"] for x in configs]]
     lines = [c.line for c in cases]
     env = dict(os.environ); env.update(getattr(prop, "ENV", {}))
     derive = getattr(prop, "derive", None)
